@@ -7,6 +7,7 @@ linearly ordered field.
 -/
 import Wheatley.Lemmas.Regress
 import Wheatley.Lemmas.Rhythm
+import Wheatley.Lemmas.Cli
 namespace Wheatley.C12
 open Generated
 
@@ -152,5 +153,15 @@ theorem look_to_forgets_data (r : Reg K) (reg : List (K × K × K) → K × K) (
     split
     · rw [List.length_tail]; exact le_trans (Nat.sub_le _ _) (List.length_filter_le _ _)
     · exact List.length_filter_le _ _
+
+/-! ### The command line (`Model/Cli.lean`: `console_main`) -/
+
+/-- The size of the memory is the last `-X` given (else the default); the number of strikes needed before the
+first regression is four, or that size when it is smaller. -/
+theorem cli_memory (c : Parse.Chars) (os : List Cli.Opt) (u : Option (List Char × List Char)) (cfg : Cli.Cfg)
+    (h : Cli.consoleMain c os u = .built cfg) :
+    cfg.maxBells = (Cli.maxBellsGiven os).getLast?.getD Generated.cliMaxBells ∧
+    cfg.minBells = min (Generated.minBellsInDataset : Int) cfg.maxBells :=
+  ⟨(Cli.main_built c os u cfg h).2.2.2.2.2.2.1, (Cli.main_built c os u cfg h).2.2.2.2.2.2.2.1⟩
 
 end Wheatley.C12
